@@ -1,11 +1,11 @@
 /-
 The range arithmetic and the store requests of `prepareCFiltersQuery` as the CODE defines them
-(Gen/Trans.lean, regenerated from query.go on every run) against the model's `rangeOf`.
+(Gen/TransQuery.lean, regenerated from query.go on every run) against the model's `rangeOf`.
 -/
-import Neutrino.Gen.Trans
+import Neutrino.Gen.TransQuery
 import Neutrino.Model.GetCFilter
 namespace Neutrino.GetCFilter
-open Neutrino.Gen.Trans Neutrino.GoInt
+open Neutrino.Gen.TransQuery Neutrino.GoInt
 
 /-- `optimisticBatchType` values as the model's `Batch` (through the regenerated constants) -/
 def absBatch (n : Nat) : Option Batch :=
